@@ -281,10 +281,14 @@ class OperatorNode(ASTNode):
 
         op = self.op_map.get(xop, xop)
 
-        if self.type == Token.OP_PRE:
-            return self.value + args[0].emit
-
         parent = self.parent
+        if self.type == Token.OP_PRE:
+            ss = self.value + args[0].emit
+            if isinstance(parent, OperatorNode) and parent.value == '^':
+                # negation binds tighter than ^ in excel, but not in python
+                ss = "(" + ss + ")"
+            return ss
+
         if op == '%':
             ss = f'{args[0].emit} / 100'
         elif op == ' ':
